@@ -17,7 +17,6 @@ package internal
 import (
 	"errors"
 	"iter"
-	"maps"
 	"net/http"
 	"net/textproto"
 	"strconv"
@@ -113,8 +112,30 @@ func directivesSeq2(s string) iter.Seq2[string, string] {
 
 // parseDirectives parses a string of cache directives and returns a map
 // where the keys are the directive names and the values are the arguments.
+//
+// A directive that occurs more than once takes its last argument, except
+// no-cache (RFC 9111 §5.2.2.4), whose occurrences add up: the unqualified form
+// covers the whole response whatever another occurrence says, and the fields
+// named by several qualified forms are all covered.
 func parseDirectives(s string) map[string]string {
-	return maps.Collect(directivesSeq2(s))
+	m := make(map[string]string)
+	for key, value := range directivesSeq2(s) {
+		if prev, repeated := m[key]; repeated && key == "no-cache" {
+			value = mergeNoCache(prev, value)
+		}
+		m[key] = value
+	}
+	return m
+}
+
+// mergeNoCache combines the arguments of two no-cache directives: empty
+// (unqualified) if either is, otherwise the field names of both.
+func mergeNoCache(a, b string) string {
+	a, b = ParseQuotedString(a), ParseQuotedString(b)
+	if a == "" || b == "" {
+		return ""
+	}
+	return a + "," + b
 }
 
 func hasToken(d map[string]string, token string) bool {
